@@ -295,14 +295,25 @@ fn run(c: &SimCase) -> (Vec<(&'static str, u64)>, bool, Result<(), Failure>) {
             }
         }
     }
-    // a different seed gives a different run
+    // different seeds give different runs: an unrelated seed, seeds that differ in one bit (lowest, bit 32,
+    // highest: a seed truncated or reinterpreted on the way to the generator would alias them), and - for the
+    // boundary seeds 0 and u64::MAX - the constants that a "guard" against a degenerate seed would typically
+    // substitute
     if nontrivial {
-        let mut c2 = c.clone();
-        c2.seed = c.seed.wrapping_add(0x9E37_79B9_7F4A_7C15) ^ 1;
-        let d3 = simulate(&c2, false);
-        classes[1].1 += 1;
-        if d3 == d1 {
-            return (classes, nontrivial, Err(fail("C09 different seeds give identical runs", format!("seeds {} and {} both give {:?}", c.seed, c2.seed, d1))));
+        let mut others: Vec<u64> = vec![c.seed.wrapping_add(0x9E37_79B9_7F4A_7C15) ^ 1, c.seed ^ 1, c.seed ^ (1 << 32), c.seed ^ (1 << 63)];
+        if c.seed == 0 || c.seed == u64::MAX {
+            others.extend([1u64, 42, 0x9E37_79B9_7F4A_7C15, 0xBF58_476D_1CE4_E5B9, 0x94D0_49BB_1331_11EB, 0x2545_F491_4F6C_DD1D, 0x853C_49E6_748F_EA9B, 0xDEAD_BEEF, 0x5DEE_CE66D, u64::MAX - 1, u64::MAX >> 1, 1 << 63, 1 << 32, u32::MAX as u64]);
+            others.push(if c.seed == 0 { u64::MAX } else { 0 });
+        }
+        others.retain(|s| *s != c.seed);
+        for s2 in others {
+            let mut c2 = c.clone();
+            c2.seed = s2;
+            let d3 = simulate(&c2, false);
+            classes[1].1 += 1;
+            if d3 == d1 {
+                return (classes, nontrivial, Err(fail("C09 different seeds give identical runs", format!("seeds {} and {} both give {:?}", c.seed, c2.seed, d1))));
+            }
         }
     }
     (classes, nontrivial, Ok(()))
